@@ -208,7 +208,7 @@ fn check_tamper(t: &Tamper, b: &Built, plain: &[u8], info: &mut Info) -> Verdict
 }
 
 pub fn run(ctx: &mut Ctx) {
-    ctx.rule("combos: (AE-1|AE-2) x (128|192|256) x inner method {stored,deflate,bzip2,zstd} x content lengths incl. 0,1,15,16,17,31,32,33, multi-block, ~100 KiB x passwords (empty, binary, long) built by an independent encryptor (own AES/SHA-1/HMAC/PBKDF2): right password -> exact bytes under varied caller buffers; none -> password-required; wrong -> rejected or read error; CRC field enforced for AE-1, ignored for AE-2. tamper_small: EVERY single-bit flip of salt, verifier, ciphertext and authentication code of entries with <=64 bytes of ciphertext (exhaustive over version x strength x method x 6 lengths): opening or reading must fail. tamper_large: random single-bit flips in 40-170 KiB entries. Non-trivial = non-empty content.");
+    ctx.rule("combos: (AE-1|AE-2) x (128|192|256) x inner method {stored,deflate,bzip2,zstd} x content lengths incl. 0,1,15,16,17,31,32,33, multi-block, ~100 KiB x passwords (empty, binary, long) built by an independent encryptor (own AES/SHA-1/HMAC/PBKDF2): right password -> exact bytes under varied caller buffers; none -> password-required; wrong -> rejected or read error; CRC field enforced for AE-1, ignored for AE-2. tamper_small: EVERY single-bit flip of salt, verifier, ciphertext and authentication code of entries with <=64 bytes of ciphertext (exhaustive over version x strength x method x 6 lengths): opening or reading must fail. tamper_large: random single-bit flips in 40-170 KiB entries. tamper_tail: entries whose compressed length ends 1..12 bytes behind a multiple of 8 KiB / 32 KiB / 128 KiB (found by search over content lengths), every bit of the authentication code and of the last two ciphertext bytes flipped, read with one big buffer and with small ones. Non-trivial = non-empty content.");
     ctx.assume("known finding ae2-compressed-early-stream-end is excluded by signature: AE-2 + compressing inner method + more than 32 KiB of ciphertext + flip inside the ciphertext + read completes with altered data");
     let n = ctx.q(12000, 100000);
     ctx.explore::<Combo>(
@@ -281,6 +281,57 @@ pub fn run(ctx: &mut Ctx) {
         },
     );
     ctx.exhaustive_all = true;
+    // entries whose COMPRESSED length ends just behind a multiple of the decoders' input-buffer sizes (8 KiB,
+    // 32 KiB, 128 KiB): the last few compressed bytes and the authentication code then arrive in a buffer fill
+    // of their own - every bit of the code and of the last two ciphertext bytes is flipped
+    let tails: Vec<(bool, u8, u16, u32, Built, Vec<u8>)> = {
+        let mut v = Vec::new();
+        for (method, bsz) in [(8u16, 32768usize), (12, 8192), (8, 8192), (93, 131072), (12, 32768)] {
+            let mut found = 0;
+            // incompressible content: the compressed length follows the content length closely
+            for n in (bsz - 700..bsz + 40).rev() {
+                let plain = Content::Rand { seed: 4242 + n as u64, len: n as u32 }.expand();
+                let Ok(c) = crate::refzip::codec::compress(method, None, &plain) else { continue };
+                let r = c.len() % bsz;
+                if (1..=12).contains(&r) && c.len() > bsz {
+                    for ae2 in [false, true] {
+                        let content = Content::Rand { seed: 4242 + n as u64, len: n as u32 };
+                        let mut e = EntrySpec::simple(b"t.bin", method, content.clone());
+                        e.enc = Enc::Aes { password: b"tamper-pw".to_vec(), salt_seed: vec![2, 9], strength: 2, ae2 };
+                        if let Ok(b) = build::build(&ArchiveSpec::plain(vec![e, EntrySpec::simple(b"tail", 0, Content::Bytes(b"t".to_vec()))])) {
+                            v.push((ae2, 2u8, method, n as u32, b, content.expand()));
+                        }
+                    }
+                    found += 1;
+                    if found >= 3 {
+                        break;
+                    }
+                }
+            }
+        }
+        v
+    };
+    let per = 96u64; // 80 bits of authentication code + 16 bits in front of it
+    ctx.enumerate::<(u32, u32)>(
+        "tamper_tail",
+        tails.len() as u64 * per * 2,
+        &|k| ((k / (per * 2)) as u32, (k % (per * 2)) as u32),
+        &|&(si, j): &(u32, u32), info: &mut Info| {
+            let s = &tails[si as usize];
+            let csize = s.4.entries[0].csize;
+            let bit = (csize * 8 - per + (j as u64 % per)) as u32;
+            info.nontrivial = true;
+            info.label(match s.2 {
+                8 => "tail:deflate",
+                12 => "tail:bzip2",
+                _ => "tail:zstd",
+            });
+            // one big read and small reads
+            let t = Tamper { ae2: s.0, strength: s.1, method: s.2, len: s.3, bit, bufsel: if j as u64 >= per { 0 } else { 6 } };
+            check_tamper(&t, &s.4, &s.5, info)
+        },
+    );
+    ctx.add_class("tamper_tail:entries", tails.len() as u64);
     // random flips in large entries
     let large: Vec<(bool, u8, u16, u32, Built, Vec<u8>)> = {
         let mut v = Vec::new();
